@@ -48,7 +48,7 @@ class C04(CtxCheck):
     def units(self, tier: str, seed: int) -> list:
         from .c04race import race_units
 
-        return [{"prefix": s} for s in self.seeds(tier)] + race_units(tier)
+        return super().units(tier, seed) + race_units(tier)
 
     def work(self, unit: dict, tier: str) -> dict:
         if "race" in unit:
